@@ -158,9 +158,51 @@ def explore(ctx, extended=False, focus=None):
                                            f"the asserted relation is {'true' if rel else 'false'}", rep))
         if len(ex.samples) < 6:
             ex.samples.append(r1.case.line())
+    histories_after_failure(ctx, ex, extended)
     return ex
 
 
+def histories_after_failure(ctx, ex, extended):
+    """an assertion made AFTER a failure inside a guarded function was caught by the caller is an ordinary assertion: it must
+    still reject a false relation at run time (and a true one must still pass), whatever exception class the failure had"""
+    rnd = ctx.rnd
+    lines = []; want = []
+    for i in range(ctx.n(120, 1500) * (2 if extended else 1)):
+        g = rnd.choice([0, 1]); gk = rnd.choice(["L", "B"])
+        fail = rnd.choice(["!", "!b", "lt:-200:127", "az:7", "!"])
+        pre = rnd.choice(["", "lt:1:2 ", "az:0 "])
+        inner = f"G:{gk}:{g}( {pre}{fail} )"
+        if rnd.random() < 0.3:
+            inner = f"G:L:1( {inner} )"
+        v = rnd.choice([0, 0, 5, -3, 1])
+        final = f"az:{v}"
+        ok = (v == 0)
+        lines.append(f"H|c03h{i}|p={common.BN128},bl=8|T( {inner} ) {final}"); want.append((ok, final, inner))
+    out = common.run_workers(lines, script="worker_guard.py")
+    ml = common.lean_driver(lines)
+    for l, o, m, (ok, final, inner) in zip(lines, out, ml, want):
+        f = o.split("|")
+        if len(f) < 3 or f[1] == "harness-error":
+            raise common.Infra("worker_guard: " + o[:300])
+        ex.evaluations += 1; ex.count("history:assertion-after-recovered-failure")
+        ex.distinct.add(("hist", inner.split("(")[0], final.split(":")[0], ok))
+        got = "|".join(f[:6]); mod = "|".join(m.split("|")[:6])
+        if got != mod:
+            ex.disagreements.append({"case": l, "impl": o[:300], "model": m[:300]})
+        else:
+            ex.traces_validated += 1
+        raised = f[1] == "raised"
+        if raised == ok:
+            ex.violations.append(Violation({"assertion": "assert_zero", "dev": "after-recovered-failure", "expected": "pass" if ok else "reject"},
+                                           f"after a failure inside a guarded function was caught, the top-level check {final} "
+                                           f"{'raises' if raised else 'does not raise'} although its relation is {'true' if ok else 'false'} "
+                                           f"(history: T( {inner} ) {final}; state after: {f[2]} {f[3]})", {"history": l}))
+
+
 def replay(ctx, payload):
+    if "history" in payload["replay"]:
+        l = payload["replay"]["history"]
+        print("impl :", common.run_workers([l], script="worker_guard.py")[0]); print("model:", common.lean_driver([l])[0])
+        return 0
     replay_case(payload["replay"]["case"])
     return 0
